@@ -926,6 +926,44 @@ fn cmd_bits(_toks: &[&str]) -> String {
 }
 
 // ---------------------------------------------------------------------------------------------
+// `consts`: what the COMPILED library says about its data types, defaults and flag layout (public API only);
+// the translator (tools/extract_constants.py) writes lean/Qco/Generated/Constants.lean from this.
+
+fn dt_row<T: NumberLike>(name: &str) -> String {
+  format!("dt:{}:{}:{}:{}", name, T::HEADER_BYTE, T::PHYSICAL_BITS, std::mem::size_of::<T::Unsigned>() * 8)
+}
+
+fn flag_bytes(order: usize, gcds: bool) -> String {
+  let cfg = CompressorConfig::default().with_delta_encoding_order(order).with_use_gcds(gcds);
+  let mut c = Compressor::<i32>::from_config(cfg);
+  c.header().unwrap();
+  let bytes = c.drain_bytes();
+  bytes[5..].iter().map(|b| format!("{:02x}", b)).collect::<String>()
+}
+
+fn cmd_consts() -> String {
+  let mut out: Vec<String> = Vec::new();
+  out.push(dt_row::<i16>("i16")); out.push(dt_row::<i32>("i32")); out.push(dt_row::<i64>("i64")); out.push(dt_row::<i128>("i128"));
+  out.push(dt_row::<u16>("u16")); out.push(dt_row::<u32>("u32")); out.push(dt_row::<u64>("u64")); out.push(dt_row::<u128>("u128"));
+  out.push(dt_row::<f32>("f32")); out.push(dt_row::<f64>("f64")); out.push(dt_row::<bool>("bool"));
+  out.push(dt_row::<TimestampNanos>("nanos")); out.push(dt_row::<TimestampMicros>("micros"));
+  out.push(dt_row::<TimestampNanos96>("nanos96")); out.push(dt_row::<TimestampMicros96>("micros96"));
+  // parts per second, from the conversions themselves
+  let one = UNIX_EPOCH + Duration::from_secs(1);
+  out.push(format!("pps:nanos:{}", TimestampNanos::try_from(one).map(|t| t.to_total_parts() as i128).unwrap_or(-1)));
+  out.push(format!("pps:micros:{}", TimestampMicros::try_from(one).map(|t| t.to_total_parts() as i128).unwrap_or(-1)));
+  out.push(format!("pps:nanos96:{}", TimestampNanos96::from_secs_and_nanos(1, 0).to_total_parts()));
+  out.push(format!("pps:micros96:{}", TimestampMicros96::from_secs_and_nanos(1, 0).to_total_parts()));
+  out.push(format!("default_limit:{}", DecompressorConfig::default().numbers_limit_per_item));
+  out.push(format!("default_level:{}", q_compress::DEFAULT_COMPRESSION_LEVEL));
+  // the header's flag section for every delta order and GCD setting the public configuration can express
+  for gcds in [false, true] {
+    for order in 0..8 {
+      out.push(format!("flags:{}:{}:{}", order, gcds as u8, flag_bytes(order, gcds)));
+    }
+  }
+  out.join(" ")
+}
 
 fn answer(line: &str) -> String {
   let toks: Vec<&str> = line.split(' ').filter(|t| !t.is_empty()).collect();
@@ -945,6 +983,7 @@ fn answer(line: &str) -> String {
       "mt" => dispatch!(toks[1], cmd_mt, &toks[2..]),
       "bigrt" => dispatch!(toks[1], cmd_bigrt, &toks[2..]),
       "ts" => cmd_ts(&toks[1..]),
+      "consts" => cmd_consts(),
       "bwords" | "bread" | "bwrite" | "bodywrite" | "numdec" => cmd_bits(&toks),
       _ => "bad-op".to_string(),
     }
